@@ -91,6 +91,8 @@ type Exec struct {
 	pathSteps  int
 	pruneQueries, pruned int
 	symCache   map[int]map[string]bool
+	closureTab map[int64]*Closure
+	fnIDs      map[*ssa.Function]int64
 	iptr       map[int]Value // interface payloads standing for interior pointers (see makeInterface)
 	specWF     []*Term // well-formedness facts of values loaded inside spec functions (see wfLoaded)
 	deadline   time.Time
@@ -749,7 +751,15 @@ func (x *Exec) operand(st *State, v ssa.Value) Value {
 	case *ssa.Const:
 		return x.constValue(v)
 	case *ssa.Function:
-		return Value{T: v.Type(), L: []*Term{x.C.IntLit(0)}, F: &Closure{Fn: v}}
+		id, ok := x.fnIDs[v]
+		if !ok {
+			id = x.newClosureID(&Closure{Fn: v})
+			if x.fnIDs == nil {
+				x.fnIDs = map[*ssa.Function]int64{}
+			}
+			x.fnIDs[v] = id
+		}
+		return Value{T: v.Type(), L: []*Term{x.C.IntLit(id)}, F: x.closureTab[id]}
 	case *ssa.Global:
 		r, ok := x.globals[v]
 		if !ok {
@@ -928,7 +938,9 @@ func (x *Exec) execInstr(fr *frame, st *State, ins ssa.Instruction) {
 		for _, b := range ins.Bindings {
 			cl.Bindings = append(cl.Bindings, x.operand(st, b))
 		}
-		st.Env[ins] = Value{T: ins.Type(), L: []*Term{c.IntLit(0)}, F: cl}
+		// a known function value has a positive identity (nil is 0), under which it is found
+		// again after a round trip through memory (captured variables are heap cells)
+		st.Env[ins] = Value{T: ins.Type(), L: []*Term{c.IntLit(x.newClosureID(cl))}, F: cl}
 	case *ssa.Store:
 		p := x.operand(st, ins.Addr)
 		x.nilCheck(st, p, ins.Pos())
@@ -1557,6 +1569,20 @@ func (x *Exec) typeAssert(st *State, ins *ssa.TypeAssert) Value {
 	if _, isIface := at.Underlying().(*types.Interface); isIface {
 		// interface-to-interface assertion: succeeds iff dynamic type implements it; model via UF on tag
 		ok := c.App(c.DeclareFun("implements$"+sanitize(typeKey(at)), []*Sort{RefSort}, BoolSort), iv.L[0])
+		if iv.L[0].Op == "intlit" {
+			// statically known dynamic type: decided by the type checker's method sets
+			for k, id := range x.typeIDs {
+				if int64(id) == iv.L[0].Val.Int64() {
+					if dt := x.typeByKey(k); dt != nil {
+						if types.Implements(dt, at.Underlying().(*types.Interface)) {
+							ok = c.True()
+						} else {
+							ok = c.False()
+						}
+					}
+				}
+			}
+		}
 		ok = c.And(ok, c.Distinct(iv.L[0], c.IntLit(0)))
 		res := Value{T: at, L: iv.L}
 		if ins.CommaOk {
@@ -1692,4 +1718,13 @@ func wholeObjectPtr(v Value) bool {
 		return types.Identical(pt.Elem(), v.P.Root)
 	}
 	return true
+}
+
+func (x *Exec) newClosureID(cl *Closure) int64 {
+	if x.closureTab == nil {
+		x.closureTab = map[int64]*Closure{}
+	}
+	id := int64(len(x.closureTab) + 1)
+	x.closureTab[id] = cl
+	return id
 }
